@@ -594,3 +594,33 @@ def cli_rules(res: CheckResult, prog: Program, from_file_raises, inspect_ok: boo
     res.add('EXIT-MAP', dm.short, 'except InvalidMosCollection: stderr + return 2', ok, '' if ok else 'an invalid collection is not reported on stderr with status 2', dm.file, dm.node.lineno)
     rets = [r for r in ast.walk(dm.node) if isinstance(r, ast.Return) and r.value is not None and not (isinstance(r.value, ast.Constant) and r.value.value == 2)]
     res.add('EXIT-MAP', dm.short, 'success path returns None (status 0)', not rets, '' if not rets else f'do_merge returns {[norm(r.value) for r in rets]} on success', dm.file, dm.node.lineno)
+
+
+# ---------------------------------------------------------- shared memoised results (C07, C08, C13, C14, C18)
+MEMO_DECORATORS = ('lru_cache', 'functools.lru_cache', 'cache', 'functools.cache')
+
+
+def no_shared_memo(res: CheckResult, prog: Program):
+    """A memoising decorator hands the *same* result object to every caller with equal arguments.  For functions that
+    return (or build objects around) a mutable parse tree this makes independent objects share one document."""
+    res.rules['NO-SHARED-MEMO'] = ('no function of the package that can return a non-constant object is memoised with functools.lru_cache/cache: '
+                                   'objects built from equal inputs would share one mutable XML tree')
+    n = 0
+    for m in prog.modules.values():
+        for node in ast.walk(m.tree):
+            if not isinstance(node, (ast.FunctionDef, ast.AsyncFunctionDef)):
+                continue
+            n += 1
+            decs = []
+            for d in node.decorator_list:
+                decs.append(norm(d.func if isinstance(d, ast.Call) else d))
+            memo = [d for d in decs if d in MEMO_DECORATORS]
+            if not memo:
+                continue
+            rets = [r.value for r in ast.walk(node) if isinstance(r, ast.Return) and r.value is not None]
+            immutable = all(isinstance(v, (ast.Constant, ast.JoinedStr)) or
+                            (isinstance(v, ast.Call) and norm(v.func) in ('str', 'int', 'float', 'bool', 'tuple', 'frozenset')) for v in rets)
+            res.add('NO-SHARED-MEMO', node.name, f'@{memo[0]} def {node.name}', immutable,
+                    '' if immutable else f'{node.name} is memoised and returns {norm(rets[0]) if rets else "?"}: every object built from an equal input shares that result '
+                    '(a merge into one running order then shows up in another; a completed marker leaks to a fresh object)', m.relpath, node.lineno)
+    res.add('NO-SHARED-MEMO', 'package', f'{n} function definitions scanned for memoising decorators', True)
